@@ -4,6 +4,8 @@ import (
 	"bytes"
 	"encoding/binary"
 	"fmt"
+	cid "github.com/ipfs/go-cid"
+	"github.com/ucan-wg/go-ucan/pkg/command"
 	"math"
 	"os"
 	"os/exec"
@@ -47,18 +49,98 @@ type entryPoint struct {
 	f    func(b []byte) error
 }
 
+// what a caller does next with a decoded value, as far as C09 lists it: public-key extraction from every
+// principal of a token (absent optional principals are the zero DID), and the accessors of a container reader
+func tokenSweep(tk token.Token, err error) error {
+	if err != nil {
+		return err
+	}
+	var ds []did.DID
+	switch v := tk.(type) {
+	case *delegation.Token:
+		ds = []did.DID{v.Issuer(), v.Audience(), v.Subject()}
+		_ = v.Policy().String()
+		_ = v.Meta().String()
+	case *invocation.Token:
+		ds = []did.DID{v.Issuer(), v.Audience(), v.Subject()}
+		_ = v.Arguments().String()
+		_ = v.Meta().String()
+	}
+	for _, d := range ds {
+		_, _ = d.PubKey()
+		_ = d.String()
+	}
+	return nil
+}
+
+func readerSweep(r container.Reader, err error) error {
+	if err != nil {
+		return err
+	}
+	var cids []cid.Cid
+	for c := range r.GetAllDelegations() {
+		cids = append(cids, c)
+	}
+	for c := range r.GetAllInvocations() {
+		cids = append(cids, c)
+	}
+	for range r.GetAllDelegations() {
+		break // a consumer that stops after the first element
+	}
+	for range r.GetAllInvocations() {
+		break
+	}
+	n := 0
+	for range r.GetAllInvocations() {
+		if n++; n == 2 {
+			break
+		}
+	}
+	_, _ = r.GetInvocation()
+	for _, c := range cids {
+		_, _ = r.GetToken(c)
+		_, _ = r.GetDelegation(c)
+	}
+	_, _ = r.GetToken(cid.Undef)
+	return nil
+}
+
 var byteEntryPoints = []entryPoint{
-	{"token.FromSealed", func(b []byte) error { _, _, err := token.FromSealed(b); return err }},
-	{"token.FromDagCbor", func(b []byte) error { _, err := token.FromDagCbor(b); return err }},
-	{"token.FromDagJson", func(b []byte) error { _, err := token.FromDagJson(b); return err }},
-	{"delegation.FromSealed", func(b []byte) error { _, _, err := delegation.FromSealed(b); return err }},
-	{"delegation.FromDagJson", func(b []byte) error { _, err := delegation.FromDagJson(b); return err }},
-	{"invocation.FromSealed", func(b []byte) error { _, _, err := invocation.FromSealed(b); return err }},
-	{"invocation.FromDagCbor", func(b []byte) error { _, err := invocation.FromDagCbor(b); return err }},
-	{"container.FromCar", func(b []byte) error { _, err := container.FromCar(b); return err }},
-	{"container.FromCarBase64", func(b []byte) error { _, err := container.FromCarBase64(b); return err }},
-	{"container.FromCbor", func(b []byte) error { _, err := container.FromCbor(b); return err }},
-	{"container.FromCborBase64", func(b []byte) error { _, err := container.FromCborBase64(b); return err }},
+	{"token.FromSealed", func(b []byte) error { tk, _, err := token.FromSealed(b); return tokenSweep(tk, err) }},
+	{"token.FromDagCbor", func(b []byte) error { return tokenSweep(token.FromDagCbor(b)) }},
+	{"token.FromDagJson", func(b []byte) error { return tokenSweep(token.FromDagJson(b)) }},
+	{"delegation.FromSealed", func(b []byte) error {
+		tk, _, err := delegation.FromSealed(b)
+		if err != nil {
+			return err
+		}
+		return tokenSweep(tk, nil)
+	}},
+	{"delegation.FromDagJson", func(b []byte) error {
+		tk, err := delegation.FromDagJson(b)
+		if err != nil {
+			return err
+		}
+		return tokenSweep(tk, nil)
+	}},
+	{"invocation.FromSealed", func(b []byte) error {
+		tk, _, err := invocation.FromSealed(b)
+		if err != nil {
+			return err
+		}
+		return tokenSweep(tk, nil)
+	}},
+	{"invocation.FromDagCbor", func(b []byte) error {
+		tk, err := invocation.FromDagCbor(b)
+		if err != nil {
+			return err
+		}
+		return tokenSweep(tk, nil)
+	}},
+	{"container.FromCar", func(b []byte) error { return readerSweep(container.FromCar(b)) }},
+	{"container.FromCarBase64", func(b []byte) error { return readerSweep(container.FromCarBase64(b)) }},
+	{"container.FromCbor", func(b []byte) error { return readerSweep(container.FromCbor(b)) }},
+	{"container.FromCborBase64", func(b []byte) error { return readerSweep(container.FromCborBase64(b)) }},
 	{"policy.FromDagJson", func(b []byte) error { _, err := policy.FromDagJson(string(b)); return err }},
 	{"selector.Parse", func(b []byte) error { _, err := selector.Parse(string(b)); return err }},
 	{"did.Parse+PubKey", func(b []byte) error {
@@ -90,6 +172,42 @@ func genDecoders(c *Ctx) {
 			arts = append(arts, b)
 		}
 	}
+	// containers holding 0..4 invocations beside delegations, in every format; a powerline delegation; an
+	// invocation without audience (absent optional principals)
+	{
+		keys := detKeys(c.Seed+1302, 1)
+		p := keys[0]
+		var invs, dlgs []sealedTok
+		for i := 0; i < 4; i++ {
+			if iv, err := invocation.New(p.did, p.did, command.Command("/a"), nil, invocation.WithNonce(bytes.Repeat([]byte{byte(i + 1)}, 12))); err == nil {
+				if b, id, err := iv.ToSealed(p.priv); err == nil {
+					invs = append(invs, sealedTok{b, id, &p, iv})
+				}
+			}
+			if d, err := delegation.New(p.did, p.did, command.Command("/"), nil, delegation.WithNonce(bytes.Repeat([]byte{byte(i + 9)}, 12))); err == nil { // no subject: powerline
+				if b, id, err := d.ToSealed(p.priv); err == nil {
+					dlgs = append(dlgs, sealedTok{b, id, &p, d})
+				}
+			}
+		}
+		for _, x := range append(append([]sealedTok{}, invs[:1]...), dlgs[:1]...) {
+			arts = append(arts, x.b)
+		}
+		for ni := 0; ni <= len(invs); ni++ {
+			w2 := container.NewWriter()
+			for _, x := range invs[:ni] {
+				w2.AddSealed(x.c, x.b)
+			}
+			for _, x := range dlgs[:2] {
+				w2.AddSealed(x.c, x.b)
+			}
+			for _, f := range ctnFmts {
+				if b, err := f.write(w2); err == nil {
+					arts = append(arts, b)
+				}
+			}
+		}
+	}
 	arts = append(arts, []byte(`[["==",".a",1],["and",[["like",".b","a*"],["all",".c",[">",".",2]]]]]`), []byte(`.a["b"][0][1:-1][]?.c?`), []byte(pool[0].iss.did.String()))
 	emit := func(tag string, ep entryPoint, b []byte) {
 		cls := classify(func() error { return ep.f(b) })
@@ -98,6 +216,11 @@ func genDecoders(c *Ctx) {
 			shown = shown[:600]
 		}
 		c.Emit(tag+"/"+ep.name, WList(WStr("dec"), WStr(ep.name), WInt(int64(len(b))), WBytes(shown)), WStr(cls))
+	}
+	for _, a := range arts {
+		for _, ep := range byteEntryPoints {
+			emit("dec/valid", ep, a)
+		}
 	}
 	n := 400
 	if c.Thorough() {
